@@ -34,7 +34,7 @@ def run_case(case, ctx=None):
         if ctx:
             ctx.count("skipped_too_large" if m.too_large else "skipped_empty")
         return
-    fam = pvcase.known_family(case, m)
+    fam = pvcase.known_family(case, m, "C01")
     if fam and not case.get("force"):
         if ctx:
             ctx.exclude(fam)
@@ -87,6 +87,6 @@ def run_shard(ctx):
             except Violation as v:
                 ctx.violation(case, str(v))
                 return
-    n = 40 if ctx.tier == "quick" else 1600
+    n = 150 if ctx.tier == "quick" else 4000
     ctx.run_given(pvcase.cases(), lambda c: run_case(c, ctx), n,
                   shrinker=pvcase.shrinker)
